@@ -233,7 +233,10 @@ class ModuleImports:
             import_statement.accept(visitor)
 
     def expand_stars(self):
-        can_select = _OneTimeSelector(self._get_unbound_names(self.pymodule))
+        can_select = _OneTimeSelector(
+            self._get_unbound_names(self.pymodule)
+            | self._get_all_star_list(self.pymodule)
+        )
         visitor = actions.ExpandStarsVisitor(
             self.project, self._current_folder(), can_select
         )
